@@ -58,6 +58,19 @@ def t_inner_b(x, y):
     return 5.0 * t_inner(x, y) / 3.0
 
 
+def _scaled_inner(c):
+    """Custom inner products that share code object, name and qualified
+    name and differ only in the captured constant (near-twin material: two
+    distinct function objects that look alike)."""
+    def inner(x, y):
+        return c * t_inner(x, y) / 3.0
+    return inner
+
+
+t_inner_c = _scaled_inner(7.0)
+t_inner_d = _scaled_inner(11.0)
+
+
 # product-space level
 def p_inner(x, y):
     return 3.0 * sum(xi.inner(yi) for xi, yi in zip(x, y))
@@ -74,6 +87,7 @@ def p_dist(x, y):
 CUSTOM = {
     ('tensor', 'inner'): t_inner, ('tensor', 'norm'): t_norm,
     ('tensor', 'dist'): t_dist, ('tensor', 'inner_b'): t_inner_b,
+    ('tensor', 'inner_c'): t_inner_c, ('tensor', 'inner_d'): t_inner_d,
     ('pspace', 'inner'): p_inner, ('pspace', 'norm'): p_norm,
     ('pspace', 'dist'): p_dist,
 }
@@ -100,7 +114,8 @@ def tensor_kwargs(sd, shape):
         if w['type'] == 'const':
             kwargs['weighting'] = float(w['value'])
         elif w['type'] == 'array':
-            arr = np.asarray(w['data'], dtype=float).reshape(shape)
+            from .ref.norms import weight_data
+            arr = weight_data(w, shape)
             if not w.get('as64'):
                 arr = arr.astype(_real_dtype(sd.get('dtype', 'float64')))
             kwargs['weighting'] = arr
